@@ -233,7 +233,9 @@ fn workbooks(rng: &mut Rng, out: &mut UnitResult, unit: u64, i: u64) {
     let mut xfs: Vec<NumFmt> = vec![];
     let n_xf = 2 + rng.usize(10);
     let mut next_id = 164u16;
-    let mut low_ids: Vec<u16> = vec![5, 6, 7, 8, 23, 24, 25, 26, 41, 42, 43, 44, 63, 64, 65, 66];
+    // ids a format record may legally (re)define: the locale-dependent ones, and - as some
+    // writers do - built-in ids such as 14 (a date) or 2 (a number), with any code
+    let mut low_ids: Vec<u16> = vec![5, 6, 7, 8, 23, 24, 25, 26, 41, 42, 43, 44, 63, 64, 65, 66, 3, 4, 12, 13, 16, 17, 19, 38, 39, 40];
     let mut customs: Vec<NumFmt> = vec![];
     for _ in 0..n_xf {
         if rng.chance(2, 5) {
@@ -304,6 +306,13 @@ fn workbooks(rng: &mut Rng, out: &mut UnitResult, unit: u64, i: u64) {
     out.feat("workbook:xlsx");
     super::c01::check_xlsx(&book, &x, "c10|xlsx", out, &ctxj);
     out.case(Some(hash_bytes(&x.bytes)));
+    // [MS-XLS] / [MS-XLSB] restrict format records to the ids 5-8, 23-26, 41-44, 63-66 and 164-382:
+    // a workbook that re-declares another built-in id only exists as xlsx
+    let legal_in_binary = |id: u16| id >= 164 || matches!(id, 5..=8 | 23..=26 | 41..=44 | 63..=66);
+    if book.xfs.iter().any(|f| f.code.is_some() && !legal_in_binary(f.id)) {
+        out.feat("xlsx:builtin_id_redeclared");
+        return;
+    }
     let b = crate::enc::xlsb::encode(&book, &XlsbChoices::random(rng), &XlsbExtra::default(), rng);
     out.feat("workbook:xlsb");
     for f in b.cell_feats.values() {
@@ -343,7 +352,7 @@ impl Prop for C10 {
         Some(format!("all admissible token sequences of length <= 3 over {} tokens x 3 section variants; built-in format ids 0..=400", TOKENS.len()))
     }
     fn mandatory(&self, _t: Tier) -> Vec<String> {
-        ["token_sequences<=3", "builtin_ids", "long_formats", "custom_format_id<164", "xlsx:xf_without_numFmtId", "sampled_long_formats", "workbook:xlsx", "workbook:xlsb", "workbook:xls", "style:Date", "style:Duration", "style:Other", "date1904", "xlsb:BrtCellRk:RkInt", "xlsb:BrtCellReal", "xlsb:BrtFmlaNum", "xls:num:NUMBER", "xls:num:RK:RkInt", "xls:formula:num"]
+        ["token_sequences<=3", "builtin_ids", "long_formats", "custom_format_id<164", "xlsx:builtin_id_redeclared", "xlsx:xf_without_numFmtId", "sampled_long_formats", "workbook:xlsx", "workbook:xlsb", "workbook:xls", "style:Date", "style:Duration", "style:Other", "date1904", "xlsb:BrtCellRk:RkInt", "xlsb:BrtCellReal", "xlsb:BrtFmlaNum", "xls:num:NUMBER", "xls:num:RK:RkInt", "xls:formula:num"]
             .iter().map(|s| s.to_string()).collect()
     }
     fn run_unit(&self, ctx: &Ctx, unit: u64, out: &mut UnitResult) {
